@@ -14,7 +14,9 @@ Records (ops | implementation observation):
                             ikey/okey: the Go types (pointers stripped); ider/oder: jsonschema.ForType of them
                                                                | ok pi=x<json> po=x<json>|-   (what tools/list advertises)
                                                                | addtool-error
-  call [tool=<t>] args=x<json>|absent out=x<json>|nilptr|nilany content=n|0|1|2 herr=0|1|2
+  call [tool=<t>] args=x<json>|absent out=x<json>|nilptr|nilany [anyx=0|1] [hout=x<json>] content=n|0|1|2 herr=0|1|2
+                            anyx=1: the handler holds int64/uint64 (not float64) in the `any` positions of its
+                            output; hout: the JSON of the value the handler returns (filled in by the harness)
         | inv=<0|1> seen=<jv|-> res=<ok|toolerr|rpcerr|panic> sc=<jv|-> content=<blocks|-> lib=<v|i|-> olib=<v|i|->
   f64 <integer>                                                | <integer Go prints for float64(integer)>
 
@@ -240,6 +242,7 @@ partial def schemaOfJ : JVal → Option Schema
 
 partial def goTyOfJ : JVal → Option GoTy
   | .str "int64" => some .int64
+  | .str "uint64" => some .uint64
   | .str "float64" => some .float64
   | .str "string" => some .string
   | .str "bool" => some .bool
@@ -373,6 +376,13 @@ partial def hasBig : JVal → Bool
   | .obj fs => fs.any (fun kv => hasBig kv.2)
   | _ => false
 
+/-- holds an integer of (MaxInt64, MaxUint64]: a value only an unsigned member takes -/
+partial def hasU64 : JVal → Bool
+  | .num d => d.isInt && decide (two63 ≤ d.toInt) && decide (d.toInt < two64)
+  | .arr xs => xs.any hasU64
+  | .obj fs => fs.any (fun kv => hasU64 kv.2)
+  | _ => false
+
 def idEnv : Env Schema := refEnv id
 
 structure CallIn where
@@ -391,7 +401,12 @@ def parseCall (d : ToolD) (toks : List String) : Option CallIn := do
     else if o == "nilany" then some (OutVal.nilAny, none)
     else do
       let raw ← parseXJson o
-      let j ← project d.oty raw
+      -- the JSON of the value the handler returns: reported by the harness (`hout=`, encoding/json's
+      -- rendering of the Out value it builds; with anyx=1 the `any` positions hold int64/uint64), else
+      -- (older recorded streams) the round trip of `out=` through the Out type
+      let j ← match getKV toks "hout" with
+        | some h => parseXJson h
+        | none => project d.oty raw
       -- a JSON null decoded into `any` is the nil interface
       match d.oty, j with
       | .any, .null => some (OutVal.nilAny, none)
@@ -515,6 +530,31 @@ partial def blameMember (t : GoTy) (d seen : JVal) : Option String :=
           then some n else none
   | _, _, _ => none
 
+/-- an integer a Go integer type holds (int64 or uint64) and float64 does not necessarily -/
+def bigGoInt (d : Dec) : Bool :=
+  d.isInt && decide (-two63 ≤ d.toInt) && decide (d.toInt < two64) && decide (d.toInt.natAbs > two53.natAbs)
+
+/-- the first place where `got` holds a different number than `want` holds there, `want`'s being an
+integer beyond ±2^53 inside [-2^63, 2^64): (path, wanted, got) -/
+partial def numDiff (want got : JVal) : Option (String × Dec × Dec) :=
+  match want, got with
+  | .num a, .num b => if a.eq b || !bigGoInt a then none else some ("", a, b)
+  | .arr xs, .arr ys =>
+    if xs.length != ys.length then none else
+    ((List.range xs.length).zip (xs.zip ys)).findSome? fun (i, x, y) =>
+      (numDiff x y).map fun (p, a, b) => (s!"[{i}]" ++ p, a, b)
+  | .obj xs, .obj ys =>
+    xs.findSome? fun (k, v) =>
+      match lookupJ k ys with
+      | some w => (numDiff v w).map fun (p, a, b) => ((if p.startsWith "[" || p.isEmpty then k ++ p else k ++ "." ++ p), a, b)
+      | none => none
+  | _, _ => none
+
+def showPath (p : String) : String := if p.isEmpty then "the value itself" else "member " ++ p
+
+def viaF64 (a b : Dec) : String :=
+  if (f64Dec a).eq b then " — the float64 nearest to it" else ""
+
 /-- The C16 monitor: the implementation's observation against the wrapper run with exact numbers. -/
 def monitor (d : ToolD) (ci : CallIn) (o : Obs) : Option String :=
   let t := d.tool
@@ -532,6 +572,27 @@ def monitor (d : ToolD) (ci : CallIn) (o : Obs) : Option String :=
   else if sameObs o io then none
   else if ci.argsNull && o.seen == "z" && sameObs { o with seen := io.seen } io then
     some "C16/F12: tools/call with arguments null: the handler observes null (a nil map) instead of the empty object with the schema's defaults"
+  else if big && o.inv == "1" && io.inv == "1" && o.seen != io.seen &&
+      (match defaulted idEnv t.inSchema ci.args, parseCanonTok o.seen with
+       | some dv, some sv => (blameMember d.ity dv sv).isNone | _, _ => true) &&
+      (match ideal.seen, parseCanonTok o.seen with | some w, some g => (numDiff w g).isSome | _, _ => false) then
+    match ideal.seen, parseCanonTok o.seen with
+    | some w, some g =>
+      match numDiff w g with
+      | some (p, a, b) => some s!"C16: handler_receives_exact_integers: the handler received an integer that differs from the one sent ({showPath p} of its input: sent {showDec a}, received {showDec b}{viaF64 a b}); every integer a Go integer type holds, int64 or uint64 — [-2^63, 2^64) — must reach the typed handler unchanged"
+      | none => none
+    | _, _ => none
+  else if big && o.inv == io.inv && o.seen == io.seen && o.res == "ok" && io.res == "ok" && o.sc != io.sc &&
+      (match ideal.structured, parseCanonTok o.sc with | some w, some g => (numDiff w g).isSome | _, _ => false) then
+    match ideal.structured, parseCanonTok o.sc with
+    | some w, some g =>
+      match numDiff w g with
+      | some (p, a, b) => some s!"C16: result_carries_exact_integers: the structured content carries an integer that differs from the one in the handler's output ({showPath p}: output {showDec a}, returned {showDec b}{viaF64 a b}); every integer a Go integer type holds, int64 or uint64 — [-2^63, 2^64) — must come back unchanged"
+      | none => none
+    | _, _ => none
+  else if io.inv == "1" && o.inv == "0" && (match ci.args with | .val v => hasU64 v | .absent => false) &&
+      sameObs o (obsOf (call (refEnv lossy63) t ci.h ci.args)) then
+    some "C16: invoked_iff_valid_after_defaults: arguments valid after defaults (and decodable) but the handler did not run; they hold an integer in (MaxInt64, MaxUint64] — a value of a uint64 member — and the call is answered as by a decode that keeps only int64 exact (the integer re-encoded through float64 fits no Go integer type); the server's decode must keep [-2^63, 2^64) exact"
   else if big && sameObs o unrep then
     some "C16/F9: integer with |n| > 2^53 rounded to float64 by applySchema's JSON round trip (handler input, validity verdict or structured content differ from the exact value)"
   else if o.inv != io.inv then
